@@ -67,6 +67,10 @@ inductive SetEnvOp where
   | touch (name : String)                         -- any other spec edit (generation bump)
   | delete (name : String) (orphan : Bool)        -- delete request (orphan propagation adds the finalizer)
   | editPayload (name : String) (phase obj : Nat) (v : String)
+  -- the store gets ahead of what a running pass has read (stale informer cache): the outcome of the
+  -- controller's own previous pass becomes visible — `v` = "Archived": archival completed after a
+  -- lifecycle change; anything else: Succeeded recorded.  No-op if that is recorded already.
+  | status (name : String) (v : String)
   deriving Repr, Inhabited
 
 structure Sys where
@@ -82,6 +86,9 @@ structure Sys where
   -- The (Cluster)ObjectSlice objects in the API: name ↦ objects.  Read only by `Pko.Model.Slices`
   -- (ObjectSets whose phases reference slices); empty in every other history.
   slices : List (String × List PObj) := []
+  -- ENVIRONMENT: kinds whose API was re-registered with another scope during the history (newest
+  -- first).  Not read by any model function: the drivers build the `Cfg.scope` of each step from it.
+  scopeOv : List (String × Scope) := []
 
 /-- GHOST: remember the ObjectSets as they are after a PKO write. -/
 def Sys.note (s : Sys) : Sys := { s with trail := s.trail ++ [(s.w.gw, s.sets)] }
@@ -124,6 +131,18 @@ def Sys.applySetEnv (s : Sys) : SetEnvOp → Sys
     | some c =>
       let phases := setAt c.phases ph fun p => { p with objs := setAt p.objs ob fun o => { o with payload := v } }
       s.thirdPartyStore c { c with phases := phases } true
+    | none => s
+  | .status n v => match s.sets n with
+    | some c =>
+      if v = "Archived" then
+        if condTrue c.conds "Archived" then s
+        else s.thirdPartyStore c { c with
+          lifecycle := .archived, controllerOf := [],
+          conds := setCond (removeCond c.conds "Available") ⟨"Archived", "True", "Archived", c.gen, ""⟩ }
+          (decide (c.lifecycle ≠ .archived))
+      else
+        if condTrue c.conds "Succeeded" then s
+        else s.thirdPartyStore c { c with conds := setCond c.conds ⟨"Succeeded", "True", "RolloutSuccess", c.gen, ""⟩ } false
     | none => s
 
 /-- Run the third-party operations scheduled before the next write on an ObjectSet. -/
